@@ -173,6 +173,11 @@ def check(ctx):
         if where.qualname != COMP:
             # recorded inside a helper: add the conditions under which the helper is reached (one level)
             complete = False
+        r0, r1 = e['value'].elts
+        if r0.scan is None or r1.scan is None or r0.scan == r1.scan:
+            # the two rows are not the loop rows of two nested scans (e.g. picked from a precomputed candidate list): which pairs
+            # reach this point is decided by data flow, not by the guards
+            complete = False
         same_atom = window = dist = False
         for v, pol, expr, q in facts:
             if v is None or (v.cmp is None and v.red is None and not has_const(v)):
@@ -251,41 +256,7 @@ def check(ctx):
         ctx.ob('R5', fj, 'max_steps', ok, 'window in frames is dimensionless: 1 / (frequency * time step)' if ok else msg)
     if not cons:
         ctx.ob('R5', fj, 'max_steps', None, 'Collective construction not found')
-    marks = [norm_text(n.targets[0].slice).replace(' ', '') for n in ast.walk(fi.node) if isinstance(n, ast.Assign) and len(n.targets) == 1
-             and isinstance(n.targets[0], ast.Subscript) and norm_text(n.targets[0].value) == 'collective_matrix']
-    if marks:
-        pairs = set(marks)
-        for m in list(marks):
-            mm = m.strip('()')
-            if mm.startswith('[') and '],[' in mm:
-                a_, b_ = mm[1:-1].split('],[')
-                for x_, y_ in zip(a_.split(','), b_.split(',')):
-                    pairs.add(f'{x_},{y_}')
-        marks = sorted(pairs)
-        sym = any(f'{b},{a}' in pairs or f'({b},{a})' in pairs for a, b in [m.strip('()').split(',') for m in marks if m.count(',') == 1])
-        red = [n for n in ast.walk(fi.node) if isinstance(n, ast.Call) and norm_text(n.func).endswith('any') and n.args and 'collective_matrix' in norm_text(n.args[0])]
-        both_axes = any('.T' in norm_text(r.args[0]) or '|' in norm_text(r.args[0]) for r in red)
-        ctx.ob('R5', fi, 'collective_matrix marks', True if (sym or both_axes) else False,
-               'both jumps of a pair are marked collective' if (sym or both_axes) else
-               'only one jump of every pair is marked in the pair matrix, but solo jumps are counted from a single axis of it: the earlier jump of '
-               'each pair is counted as solo')
-    asg = {}
-    for n in ast.walk(fi.node):
-        if isinstance(n, ast.Assign) and len(n.targets) == 1 and isinstance(n.targets[0], ast.Attribute):
-            asg[n.targets[0].attr] = n.value
-    s, c = asg.get('n_solo_jumps'), asg.get('n_coll_jumps')
-    if s is not None and c is not None:
-        ct = norm_text(c).replace(' ', '')
-        ok = ct == 'len(events)-self.n_solo_jumps'
-        st = norm_text(s).replace(' ', '')
-        ok2 = st.startswith('len(events)-') and 'collective_matrix' in st
-        pairs_formula = 'len(collective)' in ct or 'len(coll_jumps)' in ct or 'len(self.collective)' in ct
-        ctx.ob('R5', fi, c, True if (ok and ok2) else (False if pairs_formula else None),
-               'solo + collective = total by construction' if (ok and ok2) else
-               ('the number of collective jumps is derived from the number of *pairs*: a jump that belongs to several pairs is counted several times, '
-                'solo + collective no longer equals the number of jumps' if pairs_formula else 'counting identity not recognised'))
-    else:
-        ctx.ob('R5', fi, 'n_solo_jumps / n_coll_jumps', None, 'counters not found')
+    check_counts(ctx, it, fi, coll, start)
 
 
 def check_scan_exits_nested(ctx, rule, outer_fi, fi, it):
@@ -316,3 +287,100 @@ def check_scan_exits_nested(ctx, rule, outer_fi, fi, it):
                     ctx.ob(rule, fi, test, (not wrong) if cols else None,
                            f"exit on the primary sort key '{keys[0]}'" if cols and not wrong else
                            f"exit test reads '{wrong[0] if wrong else '?'}' but rows are sorted by {list(keys)}")
+
+
+def check_counts(ctx, it, fi, coll, start):
+    """solo + collective = number of jumps; collective = number of jumps that occur in at least one recorded pair."""
+    from .C04 import functions_under
+    from .common import linear_atoms, parse_sx
+    heap = it.state.heap.get(coll.oid, {}) if (coll is not None and coll.ty == 'obj') else {}
+    solo, collv = heap.get('n_solo_jumps'), heap.get('n_coll_jumps')
+    es = parse_sx(solo.sx, full=True) if solo is not None and solo.sx else None
+    ec = parse_sx(collv.sx, full=True) if collv is not None and collv.sx else None
+    if es is None or ec is None:
+        ctx.ob('R5', fi, 'n_solo_jumps / n_coll_jumps', None, 'counters not found or without a derivable expression')
+        return
+    (ls, cs), (lc, cc) = linear_atoms(es), linear_atoms(ec)
+    total = dict(ls)
+    for k, v in lc.items():
+        total[k] = total.get(k, 0.0) + v
+    total = {k: v for k, v in total.items() if v != 0}
+    # values of the atoms: look the expression up among the evaluated nodes of _compute and its helpers
+    by_sx = {}
+    for f_ in functions_under(it, COMP, ctx.p):
+        for n in ast.walk(f_.node):
+            if isinstance(n, ast.expr) and it.value_of(n) is not None:
+                t_ = parse_sx(it.sx(n), full=True)
+                by_sx.setdefault(norm_text(t_) if t_ is not None else it.sx(n), it.value_of(n))
+
+    def kind(atom):
+        v = by_sx.get(atom)
+        if v is None:
+            return None, None
+        if v.lenof is not None:
+            return ('len', v.lenof), v
+        if v.red is not None and v.red[0] == 'sum':
+            return ('count', v.red[1]), v
+        return ('other', None), v
+    ok_total = len(total) == 1 and cs + cc == 0 and list(total.values()) == [1.0] and kind(next(iter(total)))[0] is not None \
+        and kind(next(iter(total)))[0][0] == 'len' and kind(next(iter(total)))[0][1].ty == 'DataFrame'
+    pairs_len = [a for a in list(ls) + list(lc) if kind(a)[0] is not None and kind(a)[0][0] == 'len' and kind(a)[0][1].ty == 'list']
+    if pairs_len:
+        ctx.ob('R5', fi, 'n_solo_jumps + n_coll_jumps', False,
+               'the number of collective jumps is derived from the number of *pairs*: a jump that belongs to several pairs is counted several times, '
+               'solo + collective no longer equals the number of jumps')
+    else:
+        ctx.ob('R5', fi, 'n_solo_jumps + n_coll_jumps', True if ok_total else None,
+               'solo + collective = number of jumps by construction' if ok_total else 'counting identity not recognised')
+    # the collective count: one per jump that is marked, marks set for both jumps of every pair
+    counts = [a for a in set(ls) | set(lc) if kind(a)[0] is not None and kind(a)[0][0] == 'count']
+    if len(counts) != 1:
+        ctx.ob('R5', fi, 'collective count', None, 'count of the jumps that take part in a pair not recognised')
+        return
+    arg = kind(counts[0])[0][1]  # what is summed
+    marks = arg.red[1] if (arg is not None and arg.red is not None and arg.red[0] == 'any') else arg
+    reduced_axes = arg.red[3] if (arg is not None and arg.red is not None and arg.red[0] == 'any') else None
+    if marks is None or marks.alloc not in ('full', 'zeros', 'zeros_like', 'full_like'):
+        ctx.ob('R5', fi, 'collective count', None, 'the counted array is not a freshly allocated mark array')
+        return
+    in_comp = under(COMP)
+    stores = [e for e in it.events[start:] if e['tag'] == 'store' and e['kind'] == 'sub' and in_comp(e) and e['base'] is not None
+              and e['base'].alloc == marks.alloc and e['base'].axes == marks.axes and e['base'].dtype == marks.dtype]
+    idx_sets = []
+    seen = set()
+    for e in stores:
+        if id(e['node']) in seen:
+            continue
+        seen.add(id(e['node']))
+        tgt = e['node']
+        sl = tgt.slice if isinstance(tgt, ast.Subscript) else None
+        if sl is None:
+            continue
+        parts = sl.elts if isinstance(sl, ast.Tuple) else [sl]
+        idx_sets.append([tuple(it.sx(y) for y in x.elts) if isinstance(x, (ast.List, ast.Tuple)) else it.sx(x) for x in parts])
+    ndim = len(marks.axes) if marks.axes is not None else None
+    if not idx_sets or ndim is None:
+        ctx.ob('R5', fi, 'collective marks', None, 'writes into the mark array not recognised')
+        return
+    if ndim == 1:
+        flat = set()
+        for s_ in idx_sets:
+            for x in s_:
+                flat |= set(x) if isinstance(x, tuple) else {x}
+        ok = len(flat - {None}) >= 2
+        ctx.ob('R5', fi, 'collective marks', True if ok else False, 'both jumps of a pair are marked collective' if ok else
+               'only one jump of every pair is marked: the other jump of each pair is counted as solo')
+    else:
+        pairs = set()
+        for s_ in idx_sets:
+            if len(s_) == 2 and all(isinstance(x, str) for x in s_):
+                pairs.add((s_[0], s_[1]))
+            elif len(s_) == 2 and all(isinstance(x, tuple) for x in s_):
+                pairs |= set(zip(s_[0], s_[1]))
+        sym = any((b, a) in pairs for a, b in pairs if a != b)
+        both_axes = reduced_axes is not None and len(reduced_axes) != 1
+        ok = sym or both_axes
+        ctx.ob('R5', fi, 'collective marks', True if ok else (False if pairs else None),
+               'both jumps of a pair are marked collective' if ok else
+               'only one jump of every pair is marked in the pair matrix, but solo jumps are counted from a single axis of it: the earlier jump of '
+               'each pair is counted as solo')
